@@ -96,6 +96,7 @@ class _BaseTemplateAttackDistinguisherMixin(base.DistinguisherMixin, partitioned
                 f'Trace size for matching {traces.shape[1]} is different than trace size used for building {self.pooled_covariance.shape[1]}.'
             )
         self._scores = _np.zeros(shape=(self._get_dimension(traces, data), ), dtype=self.precision)
+        self._partition_index_lut = partitioned._build_lut(_np.asarray(self.partitions))
 
     def _update(self, traces, data):
         scores = []
@@ -137,7 +138,8 @@ class TemplateDPADistinguisherMixin(_BaseTemplateAttackDistinguisherMixin):
         return data.shape[1]
 
     def get_template_index(self, data, i):
-        return data[:, i]
+        # Templates are ordered like self.partitions: translate hypothesis values to class positions.
+        return self._partition_index_lut[data[:, i]]
 
     @property
     def _distinguisher_str(self):
